@@ -23,8 +23,8 @@ pub struct Case {
     pub ty: Ty,
     pub shapes: Vec<MShape>,
     pub ndev: u8,
-    /// C02 only: writer dropped without a write; `finalize` called first or not
-    pub empty_with_finalize: Option<bool>,
+    /// finalize placements: bit 0 = before the first write, bit i = after the i-th write
+    pub fin_mask: u32,
     pub disk: bool,
 }
 
@@ -34,7 +34,7 @@ impl Case {
             "ty": self.ty.name(),
             "shapes": self.shapes.iter().map(|s| s.to_json()).collect::<Vec<_>>(),
             "ndev": self.ndev,
-            "empty_with_finalize": self.empty_with_finalize,
+            "fin_mask": self.fin_mask,
             "disk": self.disk,
         })
     }
@@ -48,7 +48,7 @@ impl Case {
                 .map(MShape::from_json)
                 .collect::<Option<Vec<_>>>()?,
             ndev: v.get("ndev")?.as_u64()? as u8,
-            empty_with_finalize: v.get("empty_with_finalize").and_then(|x| x.as_bool()),
+            fin_mask: v.get("fin_mask").and_then(|x| x.as_u64()).unwrap_or(0) as u32,
             disk: v.get("disk").and_then(|x| x.as_bool()).unwrap_or(false),
         })
     }
@@ -59,16 +59,12 @@ impl Case {
         for s in &self.shapes {
             s.hash_into(&mut h);
         }
-        h.u64(match self.empty_with_finalize {
-            None => 0,
-            Some(false) => 1,
-            Some(true) => 2,
-        });
+        h.u64(self.fin_mask as u64 + 1);
         h.u64(self.disk as u64);
         h.finish()
     }
     fn nontrivial(&self) -> bool {
-        self.shapes.len() >= 2 || self.shapes.iter().any(|s| s.parts.len() >= 2) || self.ndev >= 1
+        self.shapes.len() >= 2 || self.shapes.iter().any(|s| s.parts.len() >= 2) || self.ndev >= 1 || self.fin_mask != 0
     }
 }
 
@@ -203,14 +199,16 @@ pub fn observe(case: &Case) -> Result<Obs, PanicInfo> {
             let (dshp, dshx) = (Dev::quiet(vec![]), Dev::quiet(vec![]));
             {
                 let mut w = ShapeWriter::with_shx(dshp.clone(), dshx.clone());
-                if let Some(fin) = case.empty_with_finalize {
-                    if fin {
-                        w.finalize().expect("finalize of an empty writer");
-                    }
+                if case.fin_mask & 1 != 0 {
+                    w.finalize().expect("finalize of an empty writer");
                 }
-                for s in &libs {
+                for (i, s) in libs.iter().enumerate() {
                     write_shape(&mut w, s).expect("write_shape to memory");
                     calls += 1;
+                    if case.fin_mask & (1 << (i + 1)) != 0 {
+                        w.finalize().expect("finalize between writes");
+                        calls += 1;
+                    }
                 }
             }
             shp = dshp.data();
@@ -514,6 +512,10 @@ enum UnitKind {
     Pairs { idx: usize },
     /// C02: empty files
     Empty,
+    /// size ladder: large parts / many parts, d = 0, alone and after a small shape
+    Ladder { idx: usize },
+    /// every finalize placement around sequences of 1..3 shapes, d = 0
+    Finalize,
     /// disk route, d = 0, sequences
     Disk,
 }
@@ -593,6 +595,16 @@ fn units(which: Which, tier: Tier, t: &Tables) -> Vec<Unit> {
                 kind: UnitKind::Empty,
             });
         }
+        for idx in 0..ladder(ty).len() {
+            u.push(Unit {
+                ty,
+                kind: UnitKind::Ladder { idx },
+            });
+        }
+        u.push(Unit {
+            ty,
+            kind: UnitKind::Finalize,
+        });
         if which == Which::C01 {
             u.push(Unit {
                 ty,
@@ -624,7 +636,9 @@ fn run_case(which: Which, case: &Case, ctx: &mut Ctx) {
     let mut oh = Fnv::new();
     oh.bytes(&obs.shp);
     ctx.case_done(case.hash(), case.nontrivial(), oh.finish());
-    ctx.sample(|| case.to_json());
+    if case.shapes.iter().map(|s| s.n_points()).sum::<usize>() < 40 {
+        ctx.sample(|| case.to_json());
+    }
     for (sig, detail) in verdicts {
         ctx.violation(sig, || case.to_json(), || detail);
     }
@@ -642,7 +656,7 @@ fn enumerate_unit(which: Which, t: &Tables, u: &Unit, ctx: &mut Ctx, tick: &dyn 
                 ty,
                 shapes: base.to_vec(),
                 ndev: 0,
-                empty_with_finalize: None,
+                fin_mask: 0,
                 disk: false,
             },
             ctx,
@@ -657,7 +671,7 @@ fn enumerate_unit(which: Which, t: &Tables, u: &Unit, ctx: &mut Ctx, tick: &dyn 
                             ty,
                             shapes,
                             ndev: 1,
-                            empty_with_finalize: None,
+                            fin_mask: 0,
                             disk: false,
                         },
                         ctx,
@@ -702,7 +716,7 @@ fn enumerate_unit(which: Which, t: &Tables, u: &Unit, ctx: &mut Ctx, tick: &dyn 
                                     ty,
                                     shapes,
                                     ndev: 2,
-                                    empty_with_finalize: None,
+                                    fin_mask: 0,
                                     disk: false,
                                 },
                                 ctx,
@@ -713,17 +727,35 @@ fn enumerate_unit(which: Which, t: &Tables, u: &Unit, ctx: &mut Ctx, tick: &dyn 
             }
         }
         UnitKind::Empty => {
-            for fin in [false, true] {
+            for fin in [0u32, 1] {
                 go(
                     Case {
                         ty,
                         shapes: vec![],
                         ndev: 0,
-                        empty_with_finalize: Some(fin),
+                        fin_mask: fin,
                         disk: false,
                     },
                     ctx,
                 );
+            }
+        }
+        UnitKind::Ladder { idx } => {
+            let big = ladder(ty)[*idx].clone();
+            let small = lookup(&t.reduced, ty)[0].clone();
+            for shapes in [vec![big.clone()], vec![small.clone(), big.clone(), small.clone()]] {
+                go(Case { ty, shapes, ndev: 0, fin_mask: 0, disk: false }, ctx);
+            }
+        }
+        UnitKind::Finalize => {
+            let red = lookup(&t.reduced, ty);
+            let k = red.len().min(3);
+            for n in 1..=3usize {
+                for tup in tuples(k, n) {
+                    for mask in 1u32..(1 << (n + 1)) {
+                        go(Case { ty, shapes: tup.iter().map(|i| red[*i].clone()).collect(), ndev: 0, fin_mask: mask, disk: false }, ctx);
+                    }
+                }
             }
         }
         UnitKind::Disk => {
@@ -736,7 +768,7 @@ fn enumerate_unit(which: Which, t: &Tables, u: &Unit, ctx: &mut Ctx, tick: &dyn 
                         ty,
                         shapes: tup.iter().map(|i| red[*i].clone()).collect(),
                         ndev: 0,
-                        empty_with_finalize: None,
+                        fin_mask: 0,
                         disk: true,
                     },
                     ctx,
@@ -754,7 +786,7 @@ fn selftest(which: Which) -> (u64, u64) {
         ty,
         shapes: vec![red[0].clone(), red[1].clone()],
         ndev: 0,
-        empty_with_finalize: None,
+        fin_mask: 0,
         disk: false,
     };
     let mut injected = 0;
